@@ -86,6 +86,9 @@ def gen_cases(seed, tier):
 
 
 def run(check, tier):
+    import tie_common
+
+    tie_common.run_pyops(check, tier)
     import scan_suite as S
 
     cases = gen_cases(check.seed, tier)
